@@ -133,4 +133,20 @@ def seqD {D R : Type} (P : DProb D R) : D × AccD R :=
 /-- outputs of a run -/
 def DState.outputs {D R : Type} (d : DState D R) : D × AccD R := (d.x, (d.res, d.pick))
 
+/-! ### outside the hand-shake: the update-vs-refactor decision of `modify_factor` (cholesky_solve.c)
+
+```
+update = false;
+if (L == NULL || nF == 0) update = false;
+else if (c->fl > 0 && c->modfl > 0) update = fl / (9.0 * n_threads * (nH1 + nH2) * modfl) > 1.0;
+if (nH1 + nH2 == 1) update = true;
+```
+in exact arithmetic (the quotient test is `9·n_threads·(nH1+nH2)·modfl < fl`).  `threads` is `get_nthreads()` in the tree
+as published and the constant 16 after fixes/C12-2.diff.  The two outcomes (row updates of the factor / a fresh
+factorisation) produce differently rounded factors. -/
+def factorUpdate (threads : Nat) (haveL : Bool) (nF fl modfl nH : Nat) : Bool :=
+  let upd := if !haveL || nF == 0 then false
+             else if decide (0 < fl) && decide (0 < modfl) then decide (9 * threads * nH * modfl < fl) else false
+  if nH == 1 then true else upd
+
 end PsV.Sync
